@@ -392,6 +392,10 @@ func runC17(c *Ctx) {
 	r.Rule("R3", "DefaultNewNick returns old[:len(old)-1] + string(c) with c < 0x80 on every arm (one byte: same length, same prefix)")
 	r.Rule("R4", "with tracking on Me() is the tracker's record, so it follows a rename only if the tracker's ReNick re-keys everything on every successful path (shared with C12.R3)")
 	r.Rule("R6", "the nick handlers compare Line.Nick with the client's nick, so the parser must hand over every nick unaltered: the nick!user@host split is positional only (shared with C01.R10) - a nick alphabet check in the parser would make the client deaf to changes of a nick such as the backtick one its own generator yields")
+	r.Rule("R7", "with tracking on a rename to a nick the tracker still knows is refused, so the tracker must forget every user who quits: the QUIT state handler calls DelNick(line.Nick) under no condition of its own (shared with C13.R1) - a ghost left behind, say after a netsplit, blocks the client's own change to that nick and Me() goes stale")
+	if n := c.effectsRule("R7", []string{"QUIT"}); true {
+		r.Floor("R7", "QUIT effect call sites", n, 1)
+	}
 	r.Rule("R5", "the built-in handlers that keep the nick current (internal table: 001, 433, NICK) stay registered for the life of the client: no Remover obtained by registering an internal-table handler is ever invoked, whichever way tracking is switched")
 	c.trackerRules(map[string]string{"R3": "R4"})
 	c.positionalSplitRule("R6")
@@ -657,6 +661,7 @@ func runC18(c *Ctx) {
 	r.Rule("R2", "every dial call dials Config.Server; in the connect routine the only stores to it are JoinHostPort(Server, \"6697\") under SSL / \"6667\" otherwise, both on the !hasPort(Server) edge, before any dial")
 	r.Rule("R3", "the PING handler calls Pong(line.Args[0]); lines reach handlers whole (delimiter framing, shared with C03.R1)")
 	r.Rule("R4", "the ping goroutine is spawned exactly under PingFreq > 0; it pings on each tick of a ticker of period PingFreq")
+	r.Rule("R8", "PASS is sent exactly when the application set a password: inside the library Config.Pass of an existing Config is only ever stored with a value the API caller passed in (ConnectTo's argument) - never cleared or rewritten by the library")
 	r.Rule("R5", "the registration lines are the first the new connection sends: every successful connect starts from a newly made outbound (and inbound) queue on every path, so nothing queued during or before an outage precedes or duplicates PASS/NICK/USER (shared with C07.R4)")
 	c.freshQueuesRule("R5")
 	r.Rule("R6", "with tracking on, NICK and USER are sent from the tracker's own record, which keeps nick, ident and real name for the life of the client: that record is stored only while the tracker is constructed (shared with C12.R7), so no reset on reconnect can blank the ident or name")
@@ -894,6 +899,36 @@ func runC18(c *Ctx) {
 		r.Add("R2", fmt.Sprintf("default-port#%d", nSrv), c.InstrPos(s), c.FuncKey(cn), "default port 6697 with SSL / 6667 without, only when none was given", ok2, why)
 	})
 	r.Floor("R2", "stores to Config.Server in the connect routine", nSrv, 1)
+	// the password registered is the one the application configured
+	{
+		nP := 0
+		for _, fn := range c.clientFuncs() {
+			funcInstrs(fn, func(in ssa.Instruction) {
+				st, ok := in.(*ssa.Store)
+				if !ok {
+					return
+				}
+				fv, base := fieldOf(st.Addr)
+				if fv != a.CfgPass || c.allOriginsLocalAlloc(base, fn) {
+					return
+				}
+				nP++
+				okV, why := true, "caller-supplied password"
+				for _, o := range c.Origins(st.Val) {
+					if u, isU := o.(*ssa.UnOp); isU && u.Op == token.MUL {
+						if ia, isIA := u.X.(*ssa.IndexAddr); isIA {
+							o = ia.X
+						}
+					}
+					if _, isP := o.(*ssa.Parameter); !isP {
+						okV, why = false, "stores "+o.String()+": the library replaces the configured password with a value of its own"
+					}
+				}
+				r.Add("R8", "pass-store:"+c.FuncKey(fn), c.InstrPos(st), c.FuncKey(fn), "Config.Pass of an existing Config only receives a caller-supplied password", okV, why)
+			})
+		}
+		r.Add("R8", "pass-stores", "-", "", "stores to Config.Pass of an existing Config examined", true, fmt.Sprintf("%d stores", nP))
+	}
 	// elsewhere the configured address is only ever replaced by a caller-supplied one: a port joined on outside the
 	// connect routine would freeze the default chosen with the SSL setting of that moment, not of connect time
 	for _, fn := range c.clientFuncs() {
@@ -1157,6 +1192,8 @@ func runC19(c *Ctx) {
 	if capFn == nil || authFn == nil {
 		return
 	}
+	r.Rule("R7", "Cap(END) said is CAP END sent: on every path through Cap on which no capability list was given, a line is handed to Raw - no state of the client (a count of pending requests, say) can hold the line back")
+	c.capAlwaysSendsRule("R7", capFn)
 	capCalls := func(fn *ssa.Function, sub string) []ssa.CallInstruction {
 		var out []ssa.CallInstruction
 		for _, cs := range CallSites(fn) {
@@ -2252,7 +2289,284 @@ func (c *Ctx) capRole(fn *ssa.Function) string {
 	case sig == "()(int)":
 		return "Size"
 	case fn.Signature.Params().Len() == 1 && fn.Signature.Results().Len() == 0 && namedOf(fn.Signature.Params().At(0).Type()) == rn:
-		return "Intersect"
+		// a set operation with another set: an intersection only if it deletes exactly what the other set lacks
+		if c.deletesWhatOtherLacks(fn) {
+			return "Intersect"
+		}
 	}
 	return ""
+}
+
+// deletesWhatOtherLacks: every delete in fn happens under "the other set does
+// not have the element" (a false Has / comma-ok result) and there is one.
+func (c *Ctx) deletesWhatOtherLacks(fn *ssa.Function) bool {
+	n, bad := 0, false
+	funcInstrs(fn, func(in ssa.Instruction) {
+		call, ok := in.(*ssa.Call)
+		if !ok {
+			return
+		}
+		if b, isB := call.Call.Value.(*ssa.Builtin); !isB || b.Name() != "delete" {
+			return
+		}
+		n++
+		lacks := false
+		for _, cd := range CondsAt(call.Block()) {
+			cd = unwrapNot(cd)
+			switch t := cd.V.(type) {
+			case *ssa.Call:
+				if cal := t.Call.StaticCallee(); cal != nil && sigString(cal) == "(string)(bool)" && len(t.Call.Args) == 2 && t.Call.Args[0] == ssa.Value(fn.Params[1]) {
+					if !cd.True {
+						lacks = true
+					} else {
+						bad = true
+					}
+				}
+			case *ssa.Extract:
+				if lk, isL := t.Tuple.(*ssa.Lookup); isL && t.Index == 1 && lk.CommaOk {
+					if !cd.True {
+						lacks = true
+					} else {
+						bad = true
+					}
+				}
+			}
+		}
+		if !lacks {
+			bad = true
+		}
+	})
+	return n > 0 && !bad
+}
+
+// capAlwaysSendsRule: C19.R7.
+func (c *Ctx) capAlwaysSendsRule(rule string, capFn *ssa.Function) {
+	r, a := c.R, c.A
+	var sends func(in ssa.Instruction, seen map[*ssa.Function]bool) bool
+	sends = func(in ssa.Instruction, seen map[*ssa.Function]bool) bool {
+		if _, isGo := in.(*ssa.Go); isGo {
+			return false
+		}
+		if _, isDefer := in.(*ssa.Defer); isDefer {
+			return false
+		}
+		cc := callOf(in)
+		if cc == nil || cc.IsInvoke() {
+			return false
+		}
+		cal := cc.StaticCallee()
+		if cal == nil {
+			return false
+		}
+		if cal == a.Raw {
+			return true
+		}
+		if !c.InModuleFn(cal) || cal.Blocks == nil || seen[cal] || cal == capFn {
+			return false
+		}
+		seen[cal] = true
+		defer delete(seen, cal)
+		ok, _ := AllPathsFromEntryPass(cal, func(x ssa.Instruction) bool { return sends(x, seen) })
+		return ok
+	}
+	if len(capFn.Params) < 3 || len(capFn.Blocks) == 0 {
+		r.Add(rule, "cap-signature", c.Pos(capFn.Pos()), c.FuncKey(capFn), "Cap(subcommand, capabilities...)", false, "unexpected signature")
+		return
+	}
+	list := capFn.Params[len(capFn.Params)-1]
+	starts := emptyListEdges(capFn, list)
+	if len(starts) == 0 {
+		if ok, why, pos := c.capSendsViaBuilder(capFn, list, func(x ssa.Instruction) bool { return sends(x, map[*ssa.Function]bool{}) }); ok {
+			r.Add(rule, "cap-sends#1", pos, c.FuncKey(capFn), "Cap without a capability list always sends its line", true, why)
+			return
+		}
+	}
+	where := "the empty-list edge"
+	if len(starts) == 0 {
+		starts, where = []*ssa.BasicBlock{capFn.Blocks[0]}, "entry (no test of the list length)"
+	}
+	for i, sb := range starts {
+		ok, bad := AllPathsPass(sb.Instrs[0], true, func(x ssa.Instruction) bool { return sends(x, map[*ssa.Function]bool{}) })
+		why := "every path from " + where + " hands a line to Raw"
+		if !ok {
+			why = "from " + where + " the return at " + c.InstrPos(bad) + " is reached without a line handed to Raw"
+		}
+		r.Add(rule, fmt.Sprintf("cap-sends#%d", i+1), c.InstrPos(sb.Instrs[0]), c.FuncKey(capFn), "Cap without a capability list always sends its line", ok, why)
+	}
+}
+
+// emptyListEdges: the successor blocks of the branches in fn that test
+// len(list) against zero, on the side where the list is empty.
+func emptyListEdges(fn *ssa.Function, list ssa.Value) []*ssa.BasicBlock {
+	var starts []*ssa.BasicBlock
+	for _, b := range fn.Blocks {
+		if len(b.Instrs) == 0 {
+			continue
+		}
+		iff, ok := b.Instrs[len(b.Instrs)-1].(*ssa.If)
+		if !ok {
+			continue
+		}
+		cd := unwrapNot(Cond{iff.Cond, true, iff})
+		bo, isB := cd.V.(*ssa.BinOp)
+		if !isB {
+			continue
+		}
+		isLen := func(v ssa.Value) bool {
+			cl, ok := v.(*ssa.Call)
+			if !ok {
+				return false
+			}
+			bi, ok := cl.Call.Value.(*ssa.Builtin)
+			return ok && bi.Name() == "len" && len(cl.Call.Args) == 1 && cl.Call.Args[0] == list
+		}
+		var emptyWhenTrue bool
+		switch {
+		case isLen(bo.X) && isZero(bo.Y) && bo.Op == token.EQL:
+			emptyWhenTrue = true
+		case isLen(bo.X) && isZero(bo.Y) && (bo.Op == token.NEQ || bo.Op == token.GTR):
+			emptyWhenTrue = false
+		case isLen(bo.Y) && isZero(bo.X) && bo.Op == token.EQL:
+			emptyWhenTrue = true
+		case isLen(bo.Y) && isZero(bo.X) && (bo.Op == token.NEQ || bo.Op == token.LSS):
+			emptyWhenTrue = false
+		default:
+			continue
+		}
+		if emptyWhenTrue == cd.True {
+			starts = append(starts, b.Succs[0])
+		} else {
+			starts = append(starts, b.Succs[1])
+		}
+	}
+	return starts
+}
+
+// capSendsViaBuilder: Cap has the form "for each line of build(..., list) send
+// it": the loop over the builder's result is reached on every path, its body
+// sends on every path, and on the empty-list edge the builder returns only
+// slice literals with at least one element.
+func (c *Ctx) capSendsViaBuilder(capFn *ssa.Function, list ssa.Value, sends func(ssa.Instruction) bool) (bool, string, string) {
+	for _, b := range capFn.Blocks {
+		if len(b.Instrs) == 0 || !c.IsLoopHeader(b) {
+			continue
+		}
+		iff, ok := b.Instrs[len(b.Instrs)-1].(*ssa.If)
+		if !ok {
+			continue
+		}
+		bo, isB := iff.Cond.(*ssa.BinOp)
+		if !isB || bo.Op != token.LSS {
+			continue
+		}
+		ln, isL := bo.Y.(*ssa.Call)
+		if !isL {
+			continue
+		}
+		if bi, isBi := ln.Call.Value.(*ssa.Builtin); !isBi || bi.Name() != "len" {
+			continue
+		}
+		built, isC := ln.Call.Args[0].(*ssa.Call)
+		if !isC {
+			continue
+		}
+		h := built.Call.StaticCallee()
+		if h == nil || !c.InModuleFn(h) || h.Blocks == nil || built.Call.IsInvoke() {
+			continue
+		}
+		// the counter starts at the first element
+		first := false
+		var ph *ssa.Phi
+		if add, isAdd := bo.X.(*ssa.BinOp); isAdd && add.Op == token.ADD {
+			if k, okK := constInt(add.Y); okK && k == 1 {
+				ph, _ = add.X.(*ssa.Phi)
+				if ph != nil {
+					for i, e := range ph.Edges {
+						if k0, ok0 := constInt(e); ok0 && k0 == -1 && !blockDom(b, b.Preds[i]) {
+							first = true
+						}
+					}
+				}
+			}
+		} else if ph, _ = bo.X.(*ssa.Phi); ph != nil {
+			for i, e := range ph.Edges {
+				if k0, ok0 := constInt(e); ok0 && k0 == 0 && !blockDom(b, b.Preds[i]) {
+					first = true
+				}
+			}
+		}
+		if !first {
+			continue
+		}
+		// every path through Cap reaches the loop
+		if ok, _ := AllPathsFromEntryPass(capFn, func(x ssa.Instruction) bool { return x == ssa.Instruction(iff) }); !ok {
+			continue
+		}
+		// the body sends before the next test
+		body := b.Succs[0]
+		if len(body.Instrs) == 0 {
+			continue
+		}
+		seen := ReachFromFiltered(body.Instrs[0], true, sends, nil)
+		bodyOK := true
+		for in := range seen {
+			if sends(in) {
+				continue
+			}
+			if in == b.Instrs[0] {
+				bodyOK = false
+			}
+			if _, isR := in.(*ssa.Return); isR {
+				bodyOK = false
+			}
+		}
+		if !bodyOK {
+			continue
+		}
+		// the builder: non-empty on the empty-list edge
+		j := -1
+		for i, a := range built.Call.Args {
+			if a == list {
+				j = i
+			}
+		}
+		if j < 0 || j >= len(h.Params) {
+			continue
+		}
+		hs := emptyListEdges(h, h.Params[j])
+		if len(hs) == 0 {
+			continue
+		}
+		good := true
+		for _, sb := range hs {
+			for in := range ReachFrom(sb.Instrs[0], true, nil) {
+				rt, isR := in.(*ssa.Return)
+				if !isR {
+					continue
+				}
+				if len(rt.Results) != 1 {
+					good = false
+					continue
+				}
+				sl, isS := retVal(rt, 0).(*ssa.Slice)
+				if !isS {
+					good = false
+					continue
+				}
+				al, isA := sl.X.(*ssa.Alloc)
+				if !isA || sl.Low != nil || sl.High != nil {
+					good = false
+					continue
+				}
+				if n, okN := arrayLen(al.Type()); !okN || n < 1 {
+					good = false
+				}
+			}
+		}
+		if !good {
+			continue
+		}
+		return true, "Cap sends every line " + c.FuncKey(h) + " builds, and for an empty list that is a literal of at least one line", c.InstrPos(built)
+	}
+	return false, "", ""
 }
